@@ -693,6 +693,126 @@ theorem dropped_exact_match_needs_composed_pipeline :
     rewriteLineReal (cfg0 {} b!"foo_bar" b!"baz_qux") b!"(foo_bar) cfg.fooBar.my-foo-bar FOO_BAR_X\n" =
       some b!"(baz_qux) cfg.bazQux.my-baz-qux BAZ_QUX_X\n" := by decide +kernel
 
+-- ── the VALIDATED domain of the delimiters ─────────────────────────────────────────────────────────────────────────
+/-  `NeutralDelim` is a statement about BYTES: no byte of the delimiter is an ASCII letter, digit, `-` or `_`.  The model's
+    `immediateContext` (and its boundary test) treat every byte >= 0x80 as a non-word byte, whereas
+    `scanner.rs::extract_immediate_context` asks `char::is_alphanumeric` of the DECODED character: for a non-ASCII LETTER or
+    digit directly next to the occurrence (`éFOO_BAR`, `ßFOO_BAR`) the code extends the context over it and coerces, the
+    model does not (reproduced; `日FOO_BAR` agrees by accident).  A letter is not a delimiter, so this lies outside C06's
+    quantifier — but it also lies inside `NeutralDelim`.  The property theorems below therefore restrict the delimiters to
+    the alphabet on which model and code are compared on every run: ASCII neutral bytes and whole characters of
+    `validatedPunct` (exactly the non-ASCII delimiters of `checks/c06.py::DELIMS`). -/
+
+/-- UTF-8 encodings of U+201C U+201D U+2018 U+2019 U+00AB U+00BB U+300C U+300D U+2014 U+2026 U+FEFF U+2122 -/
+def validatedPunct : List Bytes :=
+  [[0xE2, 0x80, 0x9C], [0xE2, 0x80, 0x9D], [0xE2, 0x80, 0x98], [0xE2, 0x80, 0x99], [0xC2, 0xAB], [0xC2, 0xBB],
+   [0xE3, 0x80, 0x8C], [0xE3, 0x80, 0x8D], [0xE2, 0x80, 0x94], [0xE2, 0x80, 0xA6], [0xEF, 0xBB, 0xBF], [0xE2, 0x84, 0xA2]]
+
+def neutralTextAux : Nat → Bytes → Bool
+  | _, [] => true
+  | 0, _ => false
+  | n + 1, c :: cs =>
+    if decide (c.toNat < 128) then neutralByte c && neutralTextAux n cs
+    else match validatedPunct.find? (fun p => p.isPrefixOf (c :: cs)) with
+      | some p => neutralTextAux n ((c :: cs).drop p.length)
+      | none => false
+
+/-- the delimiter is a sequence of ASCII neutral bytes and whole validated punctuation characters -/
+def NeutralText (d : Bytes) : Prop := neutralTextAux d.length d = true
+
+instance (d : Bytes) : Decidable (NeutralText d) := by unfold NeutralText; infer_instance
+
+def punctOk (p : Bytes) : Bool :=
+  p.all neutralByte && (match p with | c :: _ => !Edits.isCont c | [] => false)
+
+theorem validatedPunct_ok : validatedPunct.all punctOk = true := by decide
+
+theorem validatedPunct_facts : ∀ p ∈ validatedPunct,
+    (∀ b ∈ p, neutralByte b = true) ∧ (∃ c cs, p = c :: cs ∧ Edits.isCont c = false) := by
+  intro p hp
+  have h := List.all_eq_true.mp validatedPunct_ok p hp
+  unfold punctOk at h
+  rw [Bool.and_eq_true] at h
+  refine ⟨fun b hb => List.all_eq_true.mp h.1 b hb, ?_⟩
+  cases p with
+  | nil => simp at h
+  | cons c cs => exact ⟨c, cs, rfl, by simpa using h.2⟩
+
+theorem neutralTextAux_sound : ∀ (n : Nat) (d : Bytes), neutralTextAux n d = true → NeutralDelim d ∧ CharStart d := by
+  intro n
+  induction n with
+  | zero =>
+    intro d h
+    cases d with
+    | nil => exact ⟨fun _ hc => (by cases hc), fun _ hz => (by cases hz)⟩
+    | cons c cs => simp [neutralTextAux] at h
+  | succ n ih =>
+    intro d h
+    cases d with
+    | nil => exact ⟨fun _ hc => (by cases hc), fun _ hz => (by cases hz)⟩
+    | cons c cs =>
+      unfold neutralTextAux at h
+      split at h
+      · rename_i hlt
+        rw [Bool.and_eq_true] at h
+        obtain ⟨hn, hd⟩ := ih cs h.2
+        refine ⟨fun x hx => ?_, fun z hz => ?_⟩
+        · rcases List.mem_cons.mp hx with rfl | hx
+          · exact h.1
+          · exact hn x hx
+        · simp only [List.head?_cons, Option.some.injEq] at hz
+          subst hz
+          simp only [Edits.isCont, Bool.and_eq_false_iff, decide_eq_false_iff_not]
+          left; simp only [decide_eq_true_eq] at hlt; omega
+      · split at h
+        · rename_i p hf
+          have hm := List.mem_of_find?_eq_some hf
+          have hp : p.isPrefixOf (c :: cs) = true := by simpa using List.find?_some hf
+          obtain ⟨hb, c', cs', hpc, hcont⟩ := validatedPunct_facts p hm
+          rw [List.isPrefixOf_iff_prefix] at hp
+          obtain ⟨rest, hrest⟩ := hp
+          have hdrop : (c :: cs).drop p.length = rest := by rw [← hrest, List.drop_left']; rfl
+          rw [hdrop] at h
+          obtain ⟨hn, _⟩ := ih rest h
+          refine ⟨fun x hx => ?_, fun z hz => ?_⟩
+          · rw [← hrest] at hx
+            rcases List.mem_append.mp hx with hx | hx
+            · exact hb x hx
+            · exact hn x hx
+          · rw [← hrest, hpc] at hz
+            simp only [List.cons_append, List.head?_cons, Option.some.injEq] at hz
+            subst hz; exact hcont
+        · cases h
+
+theorem NeutralText.sound {d : Bytes} (h : NeutralText d) : NeutralDelim d ∧ CharStart d :=
+  neutralTextAux_sound d.length d h
+
+/-- C06, clause 1, on the validated domain, for the COMPOSED model (real coercion decision, real compound pass, overlap
+    resolution; only the resolver heuristics are a parameter, and they are not consulted for an unambiguous key): a standalone
+    occurrence in an enabled boundary-visible style between validated delimiters is rewritten in the same style. -/
+theorem same_style_validated {c : Cfg} (hA : AcrOk c.A) (hS : AcrStable c.A) {ws_s ws_r : List Bytes}
+    {sst rst st : Style} {styles : List Style} {d₁ d₂ : Bytes}
+    (h2 : 2 ≤ ws_s.length) (hws : Words ws_s) (hwr : Words ws_r) (hrne : ws_r ≠ [])
+    (hNs : Neutral c.A ws_s) (hNr : Neutral c.A ws_r) (hsst : sst ∈ V12) (hrst : rst ∈ V12)
+    (hUs : sst ∈ upperStyles → UpperSafe c.A ws_s) (hUr : rst ∈ upperStyles → UpperSafe c.A ws_r)
+    (hsearch : c.search = toStyle c.A ws_s sst) (hreplace : c.replace = toStyle c.A ws_r rst)
+    (g : GuardReal c styles st) (h1 : NeutralText d₁) (hd2 : NeutralText d₂) :
+    rewriteLineReal c (d₁ ++ toStyle c.A ws_s st ++ d₂) = some (d₁ ++ toStyle c.A ws_r st ++ d₂) :=
+  same_style_composed hA hS h2 hws hwr hrne hNs hNr hsst hrst hUs hUr hsearch hreplace g h1.sound.1 hd2.sound.1 hd2.sound.2
+
+/-- non-vacuity: ASCII and validated non-ASCII delimiters mixed; a letter or a lone continuation byte is not in the domain -/
+example : NeutralText b!" (\"" ∧ NeutralText ([0xE2, 0x80, 0x9C] ++ b!" ") ∧ NeutralText ([0xE2, 0x80, 0x9D] ++ b!".\n") ∧
+    NeutralText [0xEF, 0xBB, 0xBF, 0xC2, 0xAB] ∧ NeutralText [] ∧
+    ¬ NeutralText [0xC3, 0xA9] ∧ ¬ NeutralText [0x80] ∧ ¬ NeutralText b!"x" := by decide +kernel
+
+/-- WHERE MODEL AND CODE PART (outside the validated domain, inside `NeutralDelim`): the model keeps `éFOO_BAR` in its style;
+    the real code answers `éBaz_qux` (its context extraction counts `é` as a letter).  Recorded so that nobody mistakes the
+    byte-level theorems for statements about letters. -/
+theorem model_is_byte_level_outside_the_validated_domain :
+    NeutralDelim [0xC3, 0xA9] ∧ ¬ NeutralText [0xC3, 0xA9] ∧
+    rewriteLineReal (cfg0 {} b!"foo_bar" b!"baz_qux") ([0xC3, 0xA9] ++ b!"FOO_BAR" ++ b!"\n") =
+      some ([0xC3, 0xA9] ++ b!"BAZ_QUX" ++ b!"\n") := by decide +kernel
+
 -- ── `coercion_context_of_first_occurrence` (found by this composed model, repaired in repo commit 9271db5) ─────────
 
 /-- the clause at full strength for a line with SEVERAL occurrences: a standalone occurrence is rewritten in its own style
